@@ -41,6 +41,8 @@ def import_repo():
     if src in sys.path:
         sys.path.remove(src)
     sys.path.insert(0, src)
+    import logging
+    logging.disable(logging.CRITICAL)      # arguments are still evaluated, nothing is emitted
     import diameter  # noqa
     origin = os.path.abspath(diameter.__file__)
     if not origin.startswith(src + os.sep):
